@@ -9,8 +9,9 @@
   harness lists a private temp directory and /proc/self/fd and the numbers must equal the model's; after closing what was
   returned both must be zero (judged on the implementation).
 
-  Theorems: in every reachable state every buffer that is not closed for good belongs to a handle the caller holds
-  (`C15_owned`), and closing the handles — in any order, any number of times — leaves no temp file and no descriptor
+  Theorems: in every reachable state every buffer that has a temp file belongs to a handle whose Close still takes
+  effect — a builder or reader (every Close), a record that has not been closed yet (a record's Close works once,
+  record.go drops the closer) — (`C15_owned`), and closing the handles — in any order, any number of times — leaves no temp file and no descriptor
   (`C15_close`). Close is NOT terminal for a buffer that has not spilled yet (diskbuffer.Close only deals with the file
   part): bytes written into a builder after its Close may still spill, and the next Close removes that file — histories
   with Close, Write, Close are part of the quantifier (seed C15-j).
@@ -20,8 +21,8 @@ namespace Gowarc.Props.C15
 open Gowarc Gowarc.RState
 
 @[reducible] def Owned (s : RState) : Prop :=
-  ∀ (i : Nat) (b : RBuf), s.bufs[i]? = some b → b.closed = false →
-    ∃ (h : Nat) (hd : RHandle), s.handles[h]? = some hd ∧ i ∈ hd.bufs
+  ∀ (i : Nat) (b : RBuf), s.bufs[i]? = some b → b.hasFile = true →
+    ∃ (h : Nat) (hd : RHandle), s.handles[h]? = some hd ∧ hd.live = true ∧ i ∈ hd.bufs
 
 def Closed (hd : RHandle) : Prop := hd.isOpen = false ∧ hd.fd = false
 
@@ -33,14 +34,6 @@ theorem shut_noFile (b : RBuf) : b.shut.hasFile = false := by
   split
   · simp
   · rename_i h; simp only [Bool.and_eq_false_imp, Bool.not_eq_eq_eq_not, Bool.not_true, decide_eq_false_iff_not]; intro _; exact h
-
-theorem shut_keeps_noFile (b : RBuf) (h : b.hasFile = false) : b.shut.hasFile = false := shut_noFile b
-
-theorem shut_open (b : RBuf) (h : b.shut.closed = false) : b.shut = b := by
-  unfold RBuf.shut at h ⊢
-  split
-  · rename_i hs; simp [hs] at h
-  · rfl
 
 theorem closeBuf_get (bufs : List RBuf) (j i : Nat) :
     (closeBuf bufs j)[i]? = (bufs[i]?).map (fun b => if j = i then b.shut else b) := by
@@ -75,15 +68,25 @@ theorem handles_append_get (hs : List RHandle) (n : RHandle) (h : Nat) (hd : RHa
     · rw [List.getElem?_eq_none hl] at hg; cases hg
   rw [List.getElem?_append_left hlt]; exact hg
 
-/-- adding a handle and leaving the buffers' closed flags alone keeps every buffer owned -/
+/-- adding a handle keeps every buffer with a temp file owned, provided new such buffers belong to the new (live) handle -/
 theorem owned_add_handle (s : RState) (n : RHandle) (bufs' : List RBuf) (h : Owned s)
-    (hb : ∀ i b', bufs'[i]? = some b' → b'.closed = false → (∃ b, s.bufs[i]? = some b ∧ b.closed = false) ∨ i ∈ n.bufs) :
+    (hb : ∀ i b', bufs'[i]? = some b' → b'.hasFile = true → (∃ b, s.bufs[i]? = some b ∧ b.hasFile = true) ∨ (n.live = true ∧ i ∈ n.bufs)) :
     Owned ⟨bufs', s.handles ++ [n]⟩ := by
   intro i b' hg hc
-  rcases hb i b' hg hc with ⟨b, hgb, hcb⟩ | hi
-  · obtain ⟨hh, hd, hgh, hm⟩ := h i b hgb hcb
-    exact ⟨hh, hd, handles_append_get _ _ _ _ hgh, hm⟩
-  · exact ⟨s.handles.length, n, by simp, hi⟩
+  rcases hb i b' hg hc with ⟨b, hgb, hcb⟩ | ⟨hl, hi⟩
+  · obtain ⟨hh, hd, hgh, hlv, hm⟩ := h i b hgb hcb
+    exact ⟨hh, hd, handles_append_get _ _ _ _ hgh, hlv, hm⟩
+  · exact ⟨s.handles.length, n, by simp, hl, hi⟩
+
+/-- bytes are added only to the buffers in the list -/
+theorem grow_get_notin (n : Nat) (is : List Nat) (bs : List RBuf) (i : Nat) (hi : i ∉ is) :
+    (is.foldl (fun bs i => bs.modify i (fun b => { b with size := b.size + n })) bs)[i]? = bs[i]? := by
+  induction is generalizing bs with
+  | nil => rfl
+  | cons j rest ih =>
+    rw [List.foldl_cons, ih _ (fun hm => hi (List.mem_cons_of_mem _ hm)), List.getElem?_modify]
+    have : j ≠ i := fun e => hi (by rw [e]; exact List.mem_cons_self)
+    cases bs[i]? <;> simp [this]
 
 theorem step_owned (s : RState) (op : ROp) (h : Owned s) : Owned (step s op) := by
   cases op with
@@ -97,30 +100,25 @@ theorem step_owned (s : RState) (op : ROp) (h : Owned s) : Owned (step s op) := 
         rcases Nat.lt_or_ge i (s.bufs ++ [(⟨max, 0, false⟩ : RBuf)]).length with hl | hl
         · simp at hl; omega
         · rw [List.getElem?_eq_none hl] at hg; cases hg
-      simp [this]
+      exact ⟨rfl, by simp [this]⟩
   | write hh n =>
-    intro i b' hg hc
-    -- sizes change, closed flags do not
-    have hpres : ∀ (is : List Nat) (bs : List RBuf) (b' : RBuf),
-        (is.foldl (fun bs i => bs.modify i (fun b => { b with size := b.size + n })) bs)[i]? = some b' →
-        ∃ b, bs[i]? = some b ∧ b.closed = b'.closed := by
-      intro is
-      induction is with
-      | nil => intro bs b' hg; exact ⟨b', hg, rfl⟩
-      | cons j rest ih =>
-        intro bs b' hg
-        rw [List.foldl_cons] at hg
-        obtain ⟨b1, hg1, hc1⟩ := ih _ b' hg
-        rw [List.getElem?_modify] at hg1
-        cases hb : bs[i]? with
-        | none => rw [hb] at hg1; cases hg1
-        | some b0 =>
-          rw [hb] at hg1
-          simp only [Option.map_eq_map, Option.map_some, Option.some.injEq] at hg1
-          refine ⟨b0, rfl, ?_⟩
-          rw [← hc1, ← hg1]; split <;> rfl
-    obtain ⟨b, hgb, hcb⟩ := hpres _ _ b' hg
-    exact h i b hgb (by rw [hcb]; exact hc)
+    show Owned (if s.handleOnce hh = true then s else _)
+    by_cases ho : s.handleOnce hh = true
+    · simp only [ho, ↓reduceIte]; exact h
+    · simp only [ho, Bool.false_eq_true, ↓reduceIte]
+      intro i b' hg hc
+      by_cases hin : i ∈ s.handleBufs hh
+      · -- the handle written through owns the buffer and is a builder, hence live
+        unfold handleBufs at hin
+        unfold handleOnce at ho
+        cases hgh : s.handles[hh]? with
+        | none => rw [hgh] at hin; cases hin
+        | some hd =>
+          rw [hgh] at hin ho
+          exact ⟨hh, hd, hgh, by unfold RHandle.live; simp at ho; simp [ho], hin⟩
+      · replace hg : (List.foldl _ s.bufs (s.handleBufs hh))[i]? = some b' := hg
+        rw [grow_get_notin n _ _ i hin] at hg
+        exact h i b' hg hc
   | build hh =>
     apply owned_add_handle s _ _ h
     intro i b' hg hc; left; exact ⟨b', hg, hc⟩
@@ -140,7 +138,7 @@ theorem step_owned (s : RState) (op : ROp) (h : Owned s) : Owned (step s op) := 
           rcases Nat.lt_or_ge i (s.bufs ++ [(⟨max, n, false⟩ : RBuf)]).length with hl | hl
           · simp at hl; omega
           · rw [List.getElem?_eq_none hl] at hg; cases hg
-        simp [this]
+        exact ⟨rfl, by simp [this]⟩
   | derive =>
     apply owned_add_handle s _ _ h
     intro i b' hg hc; left; exact ⟨b', hg, hc⟩
@@ -151,38 +149,52 @@ theorem step_owned (s : RState) (op : ROp) (h : Owned s) : Owned (step s op) := 
     show Owned (if hasCloser = true then (⟨s.bufs, s.handles.modify hrev (fun hd => { hd with bufs := hd.bufs ++ s.handleBufs horig })⟩ : RState) else s)
     split
     · intro i b hg hc
-      obtain ⟨hh, hd, hgh, hm⟩ := h i b hg hc
-      refine ⟨hh, if hrev = hh then { hd with bufs := hd.bufs ++ s.handleBufs horig } else hd, ?_, ?_⟩
+      obtain ⟨hh, hd, hgh, hlv, hm⟩ := h i b hg hc
+      refine ⟨hh, if hrev = hh then { hd with bufs := hd.bufs ++ s.handleBufs horig } else hd, ?_, ?_, ?_⟩
       · show (s.handles.modify hrev _)[hh]? = _
         rw [List.getElem?_modify, hgh]; rfl
+      · split <;> exact hlv
       · split
         · simp [hm]
         · exact hm
     · exact h
   | close hh =>
     intro i b' hg hc
-    replace hg : (closeBufs s.bufs (s.handleBufs hh))[i]? = some b' := hg
-    rw [closeBufs_get] at hg
-    cases hb : s.bufs[i]? with
-    | none => rw [hb] at hg; cases hg
-    | some b =>
-      rw [hb] at hg
-      simp only [Option.map_some, Option.some.injEq] at hg
-      -- a buffer that is still not closed afterwards is the buffer it was
-      have hbb : b' = b := by
+    by_cases hl : s.handleLive hh = true
+    · replace hg : (if s.handleLive hh = true then closeBufs s.bufs (s.handleBufs hh) else s.bufs)[i]? = some b' := hg
+      simp only [hl, ↓reduceIte] at hg
+      rw [closeBufs_get] at hg
+      cases hb : s.bufs[i]? with
+      | none => rw [hb] at hg; cases hg
+      | some b =>
+        rw [hb] at hg
+        simp only [Option.map_some, Option.some.injEq] at hg
         by_cases hin : i ∈ s.handleBufs hh
         · simp only [hin, ↓reduceIte] at hg
-          rw [← hg] at hc ⊢
-          exact shut_open b hc
-        · simp only [hin, ↓reduceIte] at hg; exact hg.symm
-      subst hbb
-      obtain ⟨h2, hd, hgh, hm⟩ := h i b' hb hc
-      refine ⟨h2, if hh = h2 then { hd with fd := false, isOpen := false } else hd, ?_, ?_⟩
-      · show (s.handles.modify hh _)[h2]? = _
-        rw [List.getElem?_modify, hgh]; rfl
-      · split <;> exact hm
+          rw [← hg, shut_noFile] at hc; cases hc
+        · simp only [hin, ↓reduceIte] at hg
+          subst hg
+          obtain ⟨h2, hd, hgh, hlv, hm⟩ := h i b hb hc
+          have hne : hh ≠ h2 := by
+            intro e; subst e
+            apply hin
+            unfold handleBufs; rw [hgh]; exact hm
+          refine ⟨h2, hd, ?_, hlv, hm⟩
+          show (s.handles.modify hh _)[h2]? = _
+          rw [List.getElem?_modify, hgh]; simp [hne]
+    · -- a closed record: the buffers are untouched; so is every OTHER handle, and this one was not live
+      replace hg : (if s.handleLive hh = true then closeBufs s.bufs (s.handleBufs hh) else s.bufs)[i]? = some b' := hg
+      simp only [hl, Bool.false_eq_true, ↓reduceIte] at hg
+      obtain ⟨h2, hd, hgh, hlv, hm⟩ := h i b' hg hc
+      have hne : hh ≠ h2 := by
+        intro e; subst e
+        apply hl
+        unfold handleLive; rw [hgh]; exact hlv
+      refine ⟨h2, hd, ?_, hlv, hm⟩
+      show (s.handles.modify hh _)[h2]? = _
+      rw [List.getElem?_modify, hgh]; simp [hne]
 
-/-- **every buffer that is not closed for good belongs to a handle the caller holds**, in every reachable state -/
+/-- **every buffer that has a temp file belongs to a handle whose Close still takes effect**, in every reachable state -/
 theorem C15_owned (ops : List ROp) : Owned (run RState.init ops) := by
   suffices ∀ s, Owned s → Owned (run s ops) from this _ (by intro i b hg; simp [RState.init] at hg)
   induction ops with
@@ -238,9 +250,19 @@ theorem close_handleBufs (s : RState) (a h : Nat) : (step s (.close a)).handleBu
   | none => rfl
   | some hd => by_cases e : a = h <;> simp [e]
 
-/-- closing handles: a buffer without temp file stays without one; a buffer of a handle in the list ends without one -/
+/-- Close on one handle does not change whether Close on ANOTHER one takes effect -/
+theorem close_handleLive_other (s : RState) (a h : Nat) (hne : a ≠ h) : (step s (.close a)).handleLive h = s.handleLive h := by
+  unfold handleLive
+  show (match (s.handles.modify a _)[h]? with | some hd => hd.live | none => false) = _
+  rw [List.getElem?_modify]
+  cases s.handles[h]? with
+  | none => rfl
+  | some hd => simp [hne]
+
+/-- closing handles: a buffer without temp file stays without one; a buffer of a handle in the list whose Close takes
+    effect ends without one -/
 theorem run_close_noFile (L : List Nat) (s : RState) (i : Nat) (b : RBuf) (hg : s.bufs[i]? = some b)
-    (hcase : b.hasFile = false ∨ ∃ h ∈ L, i ∈ s.handleBufs h) :
+    (hcase : b.hasFile = false ∨ ∃ h ∈ L, s.handleLive h = true ∧ i ∈ s.handleBufs h) :
     ∃ b', (run s (L.map ROp.close)).bufs[i]? = some b' ∧ b'.hasFile = false := by
   induction L generalizing s b with
   | nil =>
@@ -249,31 +271,46 @@ theorem run_close_noFile (L : List Nat) (s : RState) (i : Nat) (b : RBuf) (hg : 
     · cases hm
   | cons a rest ih =>
     rw [List.map_cons, run]
-    have hstep : (step s (.close a)).bufs[i]? = some (if i ∈ s.handleBufs a then b.shut else b) := by
-      show (closeBufs s.bufs (s.handleBufs a))[i]? = _
-      rw [closeBufs_get, hg]; rfl
-    apply ih (step s (.close a)) _ hstep
-    by_cases hin : i ∈ s.handleBufs a
-    · left; simp only [hin, ↓reduceIte]; exact shut_noFile b
-    · simp only [hin, ↓reduceIte]
-      rcases hcase with e | ⟨h, hm, hi⟩
+    by_cases hl : s.handleLive a = true
+    · have hstep : (step s (.close a)).bufs[i]? = some (if i ∈ s.handleBufs a then b.shut else b) := by
+        show (if s.handleLive a = true then closeBufs s.bufs (s.handleBufs a) else s.bufs)[i]? = _
+        simp only [hl, ↓reduceIte]
+        rw [closeBufs_get, hg]; rfl
+      apply ih (step s (.close a)) _ hstep
+      by_cases hin : i ∈ s.handleBufs a
+      · left; simp only [hin, ↓reduceIte]; exact shut_noFile b
+      · simp only [hin, ↓reduceIte]
+        rcases hcase with e | ⟨h, hm, hlv, hi⟩
+        · exact Or.inl e
+        · rcases List.mem_cons.1 hm with e | e
+          · subst e; exact absurd hi hin
+          · have hne : a ≠ h := by intro e2; subst e2; exact hin hi
+            exact Or.inr ⟨h, e, by rw [close_handleLive_other s a h hne]; exact hlv, by rw [close_handleBufs]; exact hi⟩
+    · have hstep : (step s (.close a)).bufs[i]? = some b := by
+        show (if s.handleLive a = true then closeBufs s.bufs (s.handleBufs a) else s.bufs)[i]? = _
+        simp only [hl, Bool.false_eq_true, ↓reduceIte]; exact hg
+      apply ih (step s (.close a)) _ hstep
+      rcases hcase with e | ⟨h, hm, hlv, hi⟩
       · exact Or.inl e
       · rcases List.mem_cons.1 hm with e | e
-        · subst e; exact absurd hi hin
-        · exact Or.inr ⟨h, e, by rw [close_handleBufs]; exact hi⟩
+        · subst e; exact absurd hlv hl
+        · have hne : a ≠ h := by intro e2; subst e2; exact hl hlv
+          exact Or.inr ⟨h, e, by rw [close_handleLive_other s a h hne]; exact hlv, by rw [close_handleBufs]; exact hi⟩
 
 theorem run_close_bufs_length (L : List Nat) (s : RState) : (run s (L.map ROp.close)).bufs.length = s.bufs.length := by
   induction L generalizing s with
   | nil => rfl
   | cons a rest ih =>
     rw [List.map_cons, run, ih]
-    show (closeBufs s.bufs (s.handleBufs a)).length = _
-    unfold closeBufs
-    generalize s.handleBufs a = is
-    generalize s.bufs = bs
-    induction is generalizing bs with
-    | nil => rfl
-    | cons j r ih2 => rw [List.foldl_cons, ih2]; unfold closeBuf; rw [List.length_modify]
+    show (if s.handleLive a = true then closeBufs s.bufs (s.handleBufs a) else s.bufs).length = _
+    split
+    · unfold closeBufs
+      generalize s.handleBufs a = is
+      generalize s.bufs = bs
+      induction is generalizing bs with
+      | nil => rfl
+      | cons j r ih2 => rw [List.foldl_cons, ih2]; unfold closeBuf; rw [List.length_modify]
+    · rfl
 
 /-- **after Close on everything the caller holds no temp file and no descriptor remains** -/
 theorem C15_close (s : RState) (h : Owned s) : (closeAll s).files = 0 ∧ (closeAll s).fds = 0 := by
@@ -299,17 +336,17 @@ theorem C15_close (s : RState) (h : Owned s) : (closeAll s).files = 0 ∧ (close
     have hg' : t.bufs[i]? = some b' := by rw [List.getElem?_eq_getElem hi, hgi]
     have his : i < s.bufs.length := by rw [← hblen]; exact hi
     have hgs : s.bufs[i]? = some s.bufs[i] := List.getElem?_eq_getElem his
-    have hcase : (s.bufs[i]).hasFile = false ∨ ∃ hh ∈ List.range s.handles.length, i ∈ s.handleBufs hh := by
-      cases hc : (s.bufs[i]).closed with
-      | true => left; simp [RBuf.hasFile, hc]
-      | false =>
+    have hcase : (s.bufs[i]).hasFile = false ∨ ∃ hh ∈ List.range s.handles.length, s.handleLive hh = true ∧ i ∈ s.handleBufs hh := by
+      cases hc : (s.bufs[i]).hasFile with
+      | false => exact Or.inl rfl
+      | true =>
         right
-        obtain ⟨hh, hd, hgh, hm⟩ := h i _ hgs hc
+        obtain ⟨hh, hd, hgh, hlv, hm⟩ := h i _ hgs hc
         have hlt : hh < s.handles.length := by
           rcases Nat.lt_or_ge hh s.handles.length with hl | hl
           · exact hl
           · rw [List.getElem?_eq_none hl] at hgh; cases hgh
-        exact ⟨hh, List.mem_range.2 hlt, by unfold handleBufs; rw [hgh]; exact hm⟩
+        exact ⟨hh, List.mem_range.2 hlt, by unfold handleLive; rw [hgh]; exact hlv, by unfold handleBufs; rw [hgh]; exact hm⟩
     obtain ⟨b'', hg'', hnf''⟩ := hnf i _ hgs hcase
     rw [hg'] at hg''; cases hg''
     simp [hnf'']
@@ -321,11 +358,13 @@ theorem C15_close (s : RState) (h : Owned s) : (closeAll s).files = 0 ∧ (close
   have := (hall i hd (by rw [List.getElem?_eq_getElem hi, hgi])).2
   simp [this]
 
-/-- **right after Close on a handle none of its buffers has a temp file** — in any state, whatever was written before
-    (also into a builder that had been closed earlier) -/
-theorem C15_close_releases (s : RState) (h i : Nat) (b : RBuf) (hg : s.bufs[i]? = some b) (hi : i ∈ s.handleBufs h) :
+/-- **right after a Close that takes effect (any Close on a builder or reader, the first Close on a record) none of the
+    handle's buffers has a temp file** — in any state, whatever was written before (also into a builder that had been
+    closed earlier) -/
+theorem C15_close_releases (s : RState) (h i : Nat) (b : RBuf) (hg : s.bufs[i]? = some b) (hl : s.handleLive h = true)
+    (hi : i ∈ s.handleBufs h) :
     ∃ b', (step s (.close h)).bufs[i]? = some b' ∧ b'.hasFile = false :=
-  run_close_noFile [h] s i b hg (Or.inr ⟨h, by simp, hi⟩)
+  run_close_noFile [h] s i b hg (Or.inr ⟨h, by simp, hl, hi⟩)
 
 /-- the full statement: any scenario, then Close on everything that was returned -/
 theorem C15_scenario (ops : List ROp) : (closeAll (run RState.init ops)).files = 0 ∧ (closeAll (run RState.init ops)).fds = 0 :=
@@ -336,6 +375,10 @@ example : (run RState.init [.newBuilder 4, .write 0 9, .build 0, .openReader]).f
           (run RState.init [.newBuilder 4, .write 0 9, .build 0, .openReader]).fds = 2 := by decide
 example : (closeAll (run RState.init [.newBuilder 4, .write 0 9, .build 0, .openReader])).fds = 0 := by decide
 -- Close on a builder that has not spilled, a write that spills, Close again: the file exists in between and is gone at the end
+-- Build, Close(record), a spilling write into the builder, Close(record) again: the second Close releases nothing, the
+-- builder's Close does
+example : (run RState.init [.newBuilder 4, .write 0 2, .build 0, .close 1, .write 0 9, .close 1]).files = 1 ∧
+          (run RState.init [.newBuilder 4, .write 0 2, .build 0, .close 1, .write 0 9, .close 1, .close 0]).files = 0 := by decide
 example : (run RState.init [.newBuilder 4, .write 0 2, .close 0, .write 0 9]).files = 1 ∧
           (run RState.init [.newBuilder 4, .write 0 2, .close 0, .write 0 9, .close 0]).files = 0 := by decide
 
